@@ -177,6 +177,7 @@ def patch(key, text, c):
     if c.get('EMPTYKEY') and key == 'func @T@.put':
         # put has an extra first return (the empty key is ignored): the insertion is the third return statement
         t = t.replace('//@   set@2 ', '//@   set@3 ')
+        t = t.replace('//@   ensures old(this.ent[key]) == nil ==> 0 <= %snb(this, key)' % P, '//@   ensures old(this.ent[key]) == nil && key != "" ==> 0 <= %snb(this, key)' % P)
         t = t.replace('//@ func %s.put\n' % Tn, '// KNOWN FINDING (not repaired): put ignores the empty-string key -- it returns the none value and stores nothing, so the\n// clause `this.ent[key] != nil` fails at that return; all other clauses hold there.\n//@ func %s.put\n' % Tn)
     # ---- entry Equals of the scalar-valued maps compares key and value
     if key == 'func @E@.Equals' and c['V'] in ('int32', 'int64') and c['K'] != 'string':
